@@ -226,6 +226,24 @@ static void step(world &W, const std::string &opstr) {
       W.D.ref_assume(rcst_t::mk_null(W.R[p]));
     }
     if (B(W.D.is_bottom())) check(form(false), "ref_assume: a satisfiable reference constraint made the state bottom");
+  } else if (op == "asmo") { // assume(p REL q + k), k constant or symbolic ("s"), optionally negated first    asmo.rel.p.q.k[.neg]
+    const std::string &k = a[1];
+    int p = I(2), q = I(3);
+    term off = a[4] == "s" ? fresh("off") : term(I(4));
+    if (a[4] == "s") sx::assume(off >= term(-16) && off <= term(16));
+    bool neg = a.size() > 5 && a[5] == "neg";
+    rcst_t c = k == "eq" ? rcst_t::mk_eq(W.R[p], W.R[q], off.num()) : k == "ne" ? rcst_t::mk_not_eq(W.R[p], W.R[q], off.num())
+             : k == "lt" ? rcst_t::mk_lt(W.R[p], W.R[q], off.num()) : k == "le" ? rcst_t::mk_le(W.R[p], W.R[q], off.num())
+             : k == "gt" ? rcst_t::mk_gt(W.R[p], W.R[q], off.num()) : rcst_t::mk_ge(W.R[p], W.R[q], off.num());
+    term lhs = W.c.r[p].addr, rhs = W.c.r[q].addr + off;
+    form f = k == "eq" ? (lhs == rhs) : k == "ne" ? !(lhs == rhs) : k == "lt" ? (lhs < rhs) : k == "le" ? (lhs <= rhs) : k == "gt" ? (lhs > rhs) : (lhs >= rhs);
+    if (neg) {
+      c = c.negate();
+      f = !f;
+    }
+    sx::assume(f);
+    W.D.ref_assume(c);
+    if (B(W.D.is_bottom())) check(form(false), "ref_assume: a satisfiable reference constraint made the state bottom");
   } else if (op == "q") { // queries on p
     check_ref_queries(W, I(1), "query");
   } else if (op == "r2i") { // x := ref_to_int(p)
